@@ -844,9 +844,15 @@ def value_stack_refcounts(results):
         box.append(it)
         return it
 
+    mbox = []
+
     def target(make):
+        def mkm():
+            m = make()
+            mbox.append(m)
+            return m
         for x in mk():          # the iterator lives on the value stack only
-            with make():
+            with mkm():         # ... and so does the manager (through the bound __exit__ the with statement keeps)
                 yield x
     for label, make in (("a manager with bound methods", PMx), ("a manager whose __exit__ is static (trickery fails, fallback)", SMx),
                         ("a manager implemented in C", threading.Lock)):
@@ -860,20 +866,25 @@ def value_stack_refcounts(results):
             was = gc.isenabled()
             gc.disable()
             try:
+                del mbox[:]
                 g = target(make)
                 next(g)
                 it = box.pop()
-                before = sys.getrefcount(it)
+                mgr = mbox.pop()
+                fr = g.gi_frame
+                before = (sys.getrefcount(it), sys.getrefcount(mgr), sys.getrefcount(fr), sys.getrefcount(g))
                 for _ in range(3):
                     st = stackscope.extract(g)
                     del st
-                after = sys.getrefcount(it)
+                after = (sys.getrefcount(it), sys.getrefcount(mgr), sys.getrefcount(fr), sys.getrefcount(g))
+                del fr, mgr
             finally:
                 if was:
                     gc.enable()
         if after != before:
-            results["mismatches"].append({"what": "an object reachable only from the target's value stack is referenced %d times after "
-                                                  "three extractions were dropped, %d before (cycle collector off; %s)" % (after, before, label),
+            results["mismatches"].append({"what": "reference counts (value-stack-only iterator, value-stack-only manager, the target's frame, the "
+                                                  "target) are %s after three extractions were dropped, %s before (cycle collector off; %s)"
+                                                  % (after, before, label),
                                           "pid": 0, "carrier": "gen", "mse": False, "path": [], "w": None, "source": None})
         g.close()
         w.close()
